@@ -67,10 +67,23 @@ func jsonToObject(data []byte) *XObject {
 	return NewXLazyObject(func() map[string]XValue {
 		properties := make(map[string]XValue)
 
-		jsonparser.ObjectEach(data, func(key []byte, value []byte, dataType jsonparser.ValueType, offset int) error {
+		err := jsonparser.ObjectEach(data, func(key []byte, value []byte, dataType jsonparser.ValueType, offset int) error {
 			properties[string(key)] = jsonTypeToXValue(value, dataType)
 			return nil
 		})
+		if err != nil {
+			// valid JSON can contain keys with escapes that jsonparser rejects, e.g. an unpaired surrogate like \ud800, which
+			// ends the iteration early, so fall back to the standard library which replaces those with U+FFFD
+			var raw map[string]json.RawMessage
+			if err := json.Unmarshal(data, &raw); err == nil {
+				properties = make(map[string]XValue, len(raw))
+				for key, value := range raw {
+					if val, valType, _, err := jsonparser.Get(value); err == nil {
+						properties[key] = jsonTypeToXValue(val, valType)
+					}
+				}
+			}
+		}
 		return properties
 	})
 }
